@@ -360,6 +360,29 @@ func runProperty(eng *Engine, prop, tier string, timeout int, findings []Finding
 		}
 	}
 	solveAll(tmp, jobs, tier, timeout, 16)
+	// second chance: an undischarged query is retried once with every back end and a longer time limit before
+	// it is reported (solver timing differs between machines and loads; a genuinely broken obligation stays broken)
+	var retry []*solveJob
+	for _, j := range jobs {
+		if !j.cover && j.res.Status != "unsat" && j.res.Status != "sat" {
+			retry = append(retry, j)
+		}
+	}
+	if len(retry) > 0 && len(retry) <= 40 {
+		var again []*solveJob
+		for _, j := range retry {
+			again = append(again, &solveJob{name: j.name, text: j.text})
+		}
+		solveAll(tmp, again, "thorough", timeout*4, 8)
+		for i, j := range retry {
+			if again[i].res.Status == "unsat" || again[i].res.Status == "sat" {
+				first := j.res.Tried
+				j.res = again[i].res
+				j.res.Tried = append(append([]string{"first-pass:"}, first...), append([]string{"retry:"}, again[i].res.Tried...)...)
+				res.Notes = append(res.Notes, "retried with longer time limit: "+j.name+" -> "+j.res.Status)
+			}
+		}
+	}
 	// group
 	groups := map[string]*OblGroup{}
 	var order []string
